@@ -48,6 +48,12 @@ AXIOM_ALLOW = [
 ]
 _AX_RE = re.compile(r"^(?:" + "|".join(AXIOM_ALLOW) + r")$")
 
+
+def _ax_ok(name):
+    """allow-list test on a possibly fully qualified axiom name (coqchk prints Coq.Floats.PrimFloat.sqrt)"""
+    parts = name.split(".")
+    return any(_AX_RE.match(".".join(parts[k:])) for k in range(len(parts)))
+
 FORBIDDEN = re.compile(
     r"\b(Admitted|admit|Axiom|Axioms|Parameter|Parameters|Conjecture|Conjectures|Admit Obligations)\b"
     r"|Unset Guard|bypass_check|type-in-type|impredicative-set|Unset Positivity|Unset Universe Checking")
@@ -315,7 +321,7 @@ def dependency_closure(files):
     return sorted(seen)
 
 
-def static_stage(pid):
+def static_stage(pid, thorough=False):
     """Rebuild the theory a property depends on, re-check its Props files, return a report dict.
 
     report = {ok, theorems:[names], obligations, discharged, axioms:{thm:[...]}, errors:[...]}"""
@@ -369,7 +375,7 @@ def static_stage(pid):
             rep["errors"].append("%s: %d Print Assumptions commands but %d reports" % (rel, len(prints), len(blocks)))
             continue
         for name, axs in zip(prints, blocks):
-            bad = [a for a in axs if not _AX_RE.match(a.split(".")[-1]) and not _AX_RE.match(a)]
+            bad = [a for a in axs if not _ax_ok(a)]
             rep["axioms"][name] = axs
             if bad:
                 rep["ok"] = False
@@ -377,6 +383,35 @@ def static_stage(pid):
             elif name in only_thms:
                 rep["discharged"] += 1
         rep["theorems"] += only_thms
+    if thorough and rep["ok"]:
+        # second, independent checker: coqchk re-checks the compiled property files and everything they depend
+        # on, and reports the axioms of the whole loaded context (a superset of what Print Assumptions lists
+        # per theorem: it includes axioms of every library file that was merely loaded)
+        mods = []
+        for f in files:
+            rel = os.path.relpath(f, COQ)[:-2].split(os.sep)
+            mods.append(("CV." if rel[0] == "theories" else "CVmc.") + ".".join(rel[1:]))
+        rc, out = sh(["coqchk", "-silent", "-o", "-Q", os.path.join(COQ, "theories"), "CV",
+                      "-Q", os.path.join(COQ, "mc"), "CVmc"] + mods, timeout=3000)
+        m = re.search(r"\* Axioms:(.*?)\n\s*\n\* Constants/Inductives relying on type-in-type:(.*?)\n\s*\n"
+                      r"\* Constants/Inductives relying on unsafe \(co\)fixpoints:(.*?)\n\s*\n"
+                      r"\* Inductives whose positivity is assumed:(.*?)\n", out + "\n\n", flags=re.S)
+        if rc != 0 or not m:
+            rep["ok"] = False
+            rep["errors"].append("coqchk failed (rc=%s):\n%s" % (rc, out[-2000:]))
+        else:
+            axs = [a.strip() for a in m.group(1).strip().splitlines() if a.strip() and a.strip() != "<none>"]
+            rep["coqchk"] = {"modules": mods, "axioms_of_loaded_context": axs,
+                             "type_in_type": m.group(2).strip(), "unsafe_fixpoints": m.group(3).strip(),
+                             "assumed_positivity": m.group(4).strip()}
+            for k in ("type_in_type", "unsafe_fixpoints", "assumed_positivity"):
+                if rep["coqchk"][k] != "<none>":
+                    rep["ok"] = False
+                    rep["errors"].append("coqchk: %s = %s" % (k, rep["coqchk"][k]))
+            bad = [a for a in axs if not _ax_ok(a)]
+            if bad:
+                rep["ok"] = False
+                rep["errors"].append("coqchk: axioms outside the allow-list in the loaded context: %s" % bad)
     rep["wall_s"] = round(time.time() - t0, 2)
     return rep
 
